@@ -5,9 +5,10 @@ ProfA == [c |-> <<4, 4, 4, 4>>,  lo |-> <<0, 0, 0, 0>>]
 ProfB == [c |-> <<12, 4, 8, 8>>, lo |-> <<-8, 4, -12, 20>>]
 MeshesOf(NL, Profs) == {[lo |-> Prefix(p.lo, Len(nn)), c |-> Prefix(p.c, Len(nn)), n |-> nn] : nn \in NL, p \in Profs}
 MeshSet_quick    == MeshesOf({<<1>>, <<5>>, <<2, 3>>}, {ProfB}) \cup MeshesOf({<<2, 1, 2>>}, {ProfA})
-MeshSet_thorough == MeshesOf({<<1>>, <<3>>, <<5>>, <<7>>, <<2, 3>>, <<3, 3>>, <<2, 1, 2>>, <<3, 2, 2>>, <<2, 2, 2, 1>>}, {ProfA, ProfB})
+MeshSet_thorough == MeshesOf({<<1>>, <<3>>, <<5>>, <<2, 3>>, <<3, 3>>, <<2, 1, 2>>, <<3, 2, 2>>}, {ProfB})
+                    \cup MeshesOf({<<7>>, <<2, 2>>, <<2, 2, 2, 1>>}, {ProfA})
 NV_all == {1, 2, 3, 4}
 Pats_quick == {0, 2}
-Pats_thorough == {0, 1, 2, 3}
+Pats_thorough == {0, 2}
 NormKinds_all == {"const", "array", "zeros", "func"}
 =============================================================================
